@@ -30,7 +30,7 @@ COMPONENTS = {"real": ["subsequence/localconcurrences.py (LocalConcurrences, LCM
                        "C: dtw_wps_max / negativize / positivize / best_path_affinity when a use_c instance can be constructed"],
               "stub": ["client sessions and their interleaving (seeded scheduler)", "reference model: affinity recurrence + consumed-cell set (sim/models/dtw_ref.py)"]}
 ASSUMPTIONS = ["bounds: series length 2..10, histories <= 36 ops; values on a small grid so that equal stretches (real local concurrences) exist",
-               "reset() is taken to void generators created before it (they keep working on the dropped matrix)",
+               "reset() is taken to void generators created before it (they keep working on the dropped matrix)", "use_c instances (full and compact) are driven through the same histories; where the C matrix is known not to equal the recurrence (window set, penalty outside {0,1}: known findings) their history ops are skipped",
                "a restart (restart=True at a generator's first next, kbest_matches_store(keep=False) returning) empties the model's consumed set: the model never demands reuse, it only forbids reuse since the last reset",
                "wp_slice(positivize=True) is not part of the generated histories (on the masked-array variant it rewrites the shared matrix through a view, turning -inf into +inf; the property does not speak of it)"]
 TOL = 1e-9
@@ -75,9 +75,16 @@ def gen_history(st):
             s2[b:b + m] = s1[a:a + m]
     lm = max(l1, len(s2) if s2 is not None else l1)
     variant = rng.choice(["py", "py", "py", "c_full", "c_compact"])
+    pen_choice = rng.choice([None, 0.0, 0.1, 0.5])
+    win_choice = rng.choice([None, None, 1 + rng.below(lm), 1 + rng.below(lm)])
+    if variant != "py" and rng.below(4):
+        # the C matrix is known to differ from the recurrence with a window or a penalty outside {0, 1}: most C-variant
+        # histories stay inside the region where it is exact, so that the C negativize / positivize / max / path routines get exercised
+        pen_choice = rng.choice([None, 0.0, 1.0])
+        win_choice = None
     setup = {"series1": s1, "series2": s2, "gamma": rng.choice([0.5, 1.0, 2.0]), "tau": rng.choice([0.0, 0.3, 0.6, 0.9]),
              "delta": rng.choice([0.0, -0.5, -1.0, -2.0]), "delta_factor": rng.choice([1.0, 0.5, 0.9]),
-             "penalty": rng.choice([None, 0.0, 0.1, 0.5]), "window": rng.choice([None, None, 1 + rng.below(lm), 1 + rng.below(lm)]),
+             "penalty": pen_choice, "window": win_choice,
              "only_triu": rng.choice([None, None, False, True]) if selfcmp else rng.choice([None, None, False, l1 == (len(s2)) and rng.below(2) == 0]),
              "variant": variant}
     nsess = 2 + rng.below(2)
@@ -279,10 +286,17 @@ def execute(history):
     try:
         lc = _mk(setup)
     except Exception as exc:  # noqa
-        # this engine variant cannot be constructed on this tree: recorded, never a violation
+        # the property quantifies over engine/compact: a variant that cannot even be constructed from valid arguments fails it
         bump("unavailable:%s:%s" % (setup["variant"], type(exc).__name__))
+        add({"class": "engine-unavailable", "detail": "LocalConcurrences(use_c=%s, compact=%s) raised %s: %s"
+                                                     % (setup["variant"] != "py", setup["variant"] == "c_compact", type(exc).__name__, str(exc)[:160])}, 0)
         lc = None
     bump("variant:" + setup["variant"])
+    if lc is not None and setup["variant"] != "py" and (setup["window"] is not None or setup["penalty"] not in (None, 0.0, 1.0)):
+        # on these inputs the C matrix is known not to equal the recurrence (known findings): the history oracle, which
+        # judges cells by the recurrence, would only restate those findings
+        bump("c_variant_history_skipped:known_matrix_finding")
+        lc = None
     U = set()
     streams = {}
     obs = []
